@@ -512,6 +512,24 @@ func (x *Exec) evalBinary(fr *frame, st *State, n *ast.BinaryExpr, opts *evalOpt
 	_, okB := b.(Sc)
 	if !okA || !okB {
 		if n.Op == token.EQL || n.Op == token.NEQ {
+			oa, isOa := a.(Opq)
+			ob, isOb := b.(Opq)
+			pa0, isPa0 := a.(Ptr)
+			pb0, isPb0 := b.(Ptr)
+			var nilCond *T
+			switch {
+			case isOa && oa.NilC != nil && isPb0 && pb0.Nil:
+				nilCond = oa.NilC
+			case isOb && ob.NilC != nil && isPa0 && pa0.Nil:
+				nilCond = ob.NilC
+			}
+			if nilCond != nil {
+				r := *nilCond
+				if n.Op == token.NEQ {
+					r = mkNot(r)
+				}
+				return Sc{T: r}
+			}
 			if pa, isPa := a.(Ptr); isPa {
 				if pb, isPb := b.(Ptr); isPb && !pa.Nil && !pb.Nil && pa.Obj != pb.Obj {
 					// pointers into different objects are different
@@ -1003,7 +1021,7 @@ func (x *Exec) callInContract(fr *frame, st *State, f *ssa.Function, args []Valu
 	if fc == nil || !fc.HasSpec() {
 		fc = x.prog.contracts.Externs[name]
 	}
-	if fc != nil && fc.HasSpec() && !x.forceInline {
+	if fc != nil && fc.HasSpec() && (!x.forceInline || fc.Abstract) {
 		names := map[string]Value{}
 		for i, p := range f.Params {
 			names[p.Name()] = args[i]
